@@ -592,43 +592,125 @@ def flag_locals(f):
     return out
 
 
+_TAG_DISCR = {"Ok": 0, "Err": 1, "None": 0, "Some": 1, "Continue": 0, "Break": 1, "Ready": 0, "Pending": 1}
+_TAGGED_ADTS = ("core::result::Result", "core::option::Option", "core::ops::control_flow::ControlFlow")
+_PS_CACHE = {}
+
+
+def _ps_untracked(f):
+    """locals whose address is taken mutably or that are written through projections: never
+    tracked by the path-sensitive reachability (they can change behind our back)"""
+    c = _PS_CACHE.get(id(f))
+    if c is not None:
+        return c
+    bad = set()
+    for b, i, s in f.stmts():
+        if s["k"] != "a":
+            continue
+        rv = s["rv"]
+        if rv["k"] == "ref" and rv.get("mut") and not rv["p"].get("p"):
+            bad.add(rv["p"]["l"])
+        if rv["k"] == "addr" and not rv.get("p", {}).get("p"):
+            bad.add(rv.get("p", {}).get("l"))
+        if s["lhs"].get("p"):
+            bad.add(s["lhs"]["l"])
+    for b, t in f.calls():
+        if t["dest"].get("p"):
+            bad.add(t["dest"]["l"])
+    _PS_CACHE[id(f)] = bad
+    return bad
+
+
 def reachable_fs(f, starts, removed_edges=()):
-    """Reachability that tracks the value of materialised-condition flags (see flag_locals):
-    a switch on a flag whose value is known follows only the matching edge.  Sound refinement
-    of plain CFG reachability for the `matches!` / `&&` lowering."""
-    flags = flag_locals(f)
+    """Path-sensitive reachability over a tiny abstract domain.  Along each path the exact
+    value of a local is tracked when it is (a) a literal bool, (b) a Result / Option /
+    ControlFlow aggregate's variant tag, (c) a plain copy / move / `!` of such a local,
+    (d) `Try::branch` of a tagged Result/Option, (e) `discriminant(..)` of a tagged local.
+    A switch on a local whose value is known follows only the matching edge; everything
+    else stays non-deterministic, so the result is a sound refinement (never smaller than
+    the set of feasible blocks) of plain CFG reachability.  This is what makes
+    `matches!`-materialised flags, `a && b`, predicate helpers and `check(..)?` helpers in
+    the inlined view analysable without enumerating paths."""
     removed_edges = set(removed_edges)
-    if not flags:
-        return f.reachable(starts, removed_edges)
+    untracked = _ps_untracked(f)
     seen = set()
     out = set()
     starts = [starts] if isinstance(starts, int) else list(starts)
     stack = [(s, frozenset()) for s in starts]
+    nstates = 0
     while stack:
         b, st = stack.pop()
         if (b, st) in seen:
             continue
         seen.add((b, st))
+        nstates += 1
+        if nstates > 200000:
+            return f.reachable(starts, removed_edges)
         out.add(b)
         d = dict(st)
-        for l, m in flags.items():
-            if b in m and not isinstance(m[b], tuple):
-                d[l] = m[b]
-        for l, m in flags.items():
-            if b in m and isinstance(m[b], tuple):
-                if m[b][1] in d:
-                    d[l] = d[m[b][1]]
-                else:
-                    d.pop(l, None)
-        t = f.blocks[b]["t"]
+        blk = f.blocks[b]
+        for s in blk["s"]:
+            if s["k"] != "a":
+                continue
+            lhs = s["lhs"]
+            l = lhs["l"]
+            if lhs.get("p"):
+                d.pop(l, None)
+                continue
+            rv = s["rv"]
+            v = None
+            k = rv["k"]
+            if l not in untracked:
+                if k == "use":
+                    o = rv["o"]
+                    if o["k"] == "const":
+                        cv = o.get("v")
+                        if cv == "true":
+                            v = ("b", 1)
+                        elif cv == "false":
+                            v = ("b", 0)
+                    elif not o["p"].get("p"):
+                        v = d.get(o["p"]["l"])
+                elif k == "agg" and rv.get("ak") == "adt" and rv.get("adt") in _TAGGED_ADTS and rv.get("variant") in _TAG_DISCR:
+                    v = ("t", rv["variant"])
+                elif k == "un" and rv.get("op") == "Not" and rv["a"]["k"] != "const" and not rv["a"]["p"].get("p"):
+                    x = d.get(rv["a"]["p"]["l"])
+                    if x is not None and x[0] == "b":
+                        v = ("b", 1 - x[1])
+                elif k == "discr" and not rv["p"].get("p"):
+                    x = d.get(rv["p"]["l"])
+                    if x is not None and x[0] == "t":
+                        v = ("i", _TAG_DISCR[x[1]])
+            if v is None:
+                d.pop(l, None)
+            else:
+                d[l] = v
+        t = blk["t"]
         succs = f.succs()[b]
-        if t["k"] == "switch":
+        if t["k"] == "call":
+            dl = t["dest"]["l"]
+            nv = None
+            if not t["dest"].get("p") and dl not in untracked and t["args"]:
+                n0 = t.get("resolved") or t["callee"]
+                a0 = t["args"][0]
+                if a0["k"] in ("copy", "move") and not a0["p"].get("p"):
+                    x = d.get(a0["p"]["l"])
+                    if x is not None and x[0] == "t" and ("Try>::branch" in n0 or n0.endswith("Try::branch")):
+                        if x[1] in ("Ok", "Some", "Continue"):
+                            nv = ("t", "Continue")
+                        elif x[1] in ("Err", "None", "Break"):
+                            nv = ("t", "Break")
+            if nv is None:
+                d.pop(dl, None)
+            else:
+                d[dl] = nv
+            # a moved-out argument no longer holds its value
+        elif t["k"] == "switch":
             l = op_local(t["d"])
-            if l in flags and l in d:
+            x = d.get(l) if l is not None else None
+            if x is not None and x[0] in ("b", "i"):
                 explicit = {int(v): tb for v, tb in t["targets"]}
-                tgt = explicit.get(d[l], t["otherwise"])
-                succs = [tgt]
-        # the flag is consumed by `move` in the switch; keep state small: drop it after use
+                succs = [explicit.get(x[1], t["otherwise"])]
         nst = frozenset(d.items())
         for s2 in succs:
             if (b, s2) in removed_edges:
